@@ -2215,13 +2215,19 @@ theorem HlSh.monoNV {t : Buf} {i j : Nat} {st : HLσ} (h : HlSh t i st) (hij : i
   ⟨fun hh => by have := h.pos hh; omega, h.valNz, h.nameNz,
    fun hv hh => (h.hv hv hh).monoNV hij hj (isVal_hContact hnv) (isVal_hPAI hnv)⟩
 
+/-- what a call establishes when it returns MoreBytes: the call has not terminated, a suspended first line is
+    legitimate, and (before the body section) the header in progress and the values satisfy `HlSh` -/
+def smPostM (t : Buf) (r : Nat × Err × PSIPMsg) : Prop :=
+  r.2.1 = .moreBytes →
+    (r.2.2.state = .fline ∨ r.2.2.state = .headers ∨ r.2.2.state = .body) ∧
+    (r.2.2.state = .fline → FlSh r.2.2.fl ∧ ¬ r.2.2.hl.cur.state.isVal) ∧
+    (r.2.2.state ≠ .body → HlSh t r.1 (r.2.2.hl.cur, some r.2.2.pv))
+
 /-- the header section -/
 theorem smMsgHeaders (pre t : Buf) (o : Nat) (m : PSIPMsg) (flags : Nat) (hfit : pre.size + t.size ≤ 65535)
     (hst : m.state = .headers) (hA : HlsAll t o m.hl (some m.pv)) :
     smResM pre.size (msgHeaders (pre ++ t) (pre.size + o) (shMsg pre.size m) flags) (msgHeaders t o m flags) ∧
-      ((msgHeaders t o m flags).2.1 = .moreBytes →
-        (msgHeaders t o m flags).2.2.state ≠ .body →
-          HlSh t (msgHeaders t o m flags).1 ((msgHeaders t o m flags).2.2.hl.cur, some (msgHeaders t o m flags).2.2.pv)) := by
+      smPostM t (msgHeaders t o m flags) := by
   obtain ⟨hb'', p1, p2, p3⟩ := parseHeaders_shift pre t o m.hl (some m.pv) hfit hA
   have hsafe := parseHeaders_safe t o m.hl (some m.pv) (by omega) hA.ok1 hA.ok2 hA.pend hA.ho hA.safe
   have hsome := parseHeaders_isSome t o m.hl m.pv
@@ -2258,22 +2264,21 @@ theorem smMsgHeaders (pre t : Buf) (o : Nat) (m : PSIPMsg) (flags : Nat) (hfit :
     have e9 : ({ shMsg pre.size m with hl := shHls pre.size hl1, pv := ((some pv1).map (shHv pre.size)).getD (shMsg pre.size m).pv, state := MsgState.body } : PSIPMsg) = { shMsg pre.size { m with hl := hl1, pv := pv1, state := .body } with body := m.body } := by
       unfold shMsg; simp only [hst, shMb, shMl, shMo]; rfl
     rw [e9, msgBody_body_irrel]
-    refine ⟨smResM_of_eq (smMsgBody pre t o1 _ flags rfl ho1 hfit), fun hm hnb => ?_⟩
-    exfalso
+    refine ⟨smResM_of_eq (smMsgBody pre t o1 _ flags rfl ho1 hfit), fun hm => ?_⟩
     have := msgBody_resume t #[] o1 { m with hl := hl1, pv := pv1, state := .body } flags flags
       (o' := (msgBody t o1 { m with hl := hl1, pv := pv1, state := .body } flags).1)
       (m' := (msgBody t o1 { m with hl := hl1, pv := pv1, state := .body } flags).2.2) (Prod.ext rfl (Prod.ext hm rfl))
-    apply hnb
     rw [this.2.1]
+    exact ⟨Or.inr (Or.inr rfl), (fun hh => by cases hh), fun hh => absurd rfl hh⟩
   case moreBytes =>
     refine ⟨herr _ (by decide) rfl, ?_⟩
     generalize hme : msgErr ({ m with hl := hl1, pv := pv1 } : PSIPMsg) o1 Err.moreBytes flags = r
-    intro hm _
+    intro hm
     rcases r with ⟨o2, e2, m2⟩
     simp only at hm
     subst hm
     obtain ⟨_, rfl, rfl⟩ := msgErr_more_inv _ _ _ _ hme
-    exact p3 rfl
+    exact ⟨Or.inr (Or.inl hst), (fun hh => by rw [show ({ m with hl := hl1, pv := pv1 } : PSIPMsg).state = m.state from rfl, hst] at hh; cases hh), fun _ => p3 rfl⟩
   all_goals
     refine ⟨herr _ (by decide) rfl, ?_⟩
     generalize hme : msgErr ({ m with hl := hl1, pv := pv1 } : PSIPMsg) o1 _ flags = r
@@ -2283,4 +2288,322 @@ theorem smMsgHeaders (pre t : Buf) (o : Nat) (m : PSIPMsg) (flags : Nat) (hfit :
     subst hm
     exact absurd (msgErr_more_inv _ _ _ _ hme).1 (by decide)
 
+theorem shMsg_toHeaders (k : Nat) (m : PSIPMsg) (fl1 : PFLine) (hst : m.state = .fline) :
+    ({ shMsg k m with fl := shFl k fl1, state := MsgState.headers } : PSIPMsg) = shMsg k { m with fl := fl1, state := .headers } := by
+  unfold shMsg; simp only [hst, shMb, shMl, shMo]
+
+/-- the first-line section -/
+theorem smMsgFLine (pre t : Buf) (o : Nat) (m : PSIPMsg) (flags : Nat) (hfit : pre.size + t.size ≤ 65535)
+    (hst : m.state = .fline) (hok : msgOK2 t o m) (H : MsgSafe t o m) (hfl : FlSh m.fl)
+    (hX : HlSh t o (m.hl.cur, some m.pv)) (hidle : ¬ m.hl.cur.state.isVal) :
+    smResM pre.size (msgFLine (pre ++ t) (pre.size + o) (shMsg pre.size m) flags) (msgFLine t o m flags) ∧
+      smPostM t (msgFLine t o m flags) := by
+  obtain ⟨ho, _, hrest⟩ := hok
+  obtain ⟨hls, hvs, hpe⟩ := hrest (by rw [hst]; decide)
+  have hFS := H.flS (Or.inr hst)
+  obtain ⟨q1, q2⟩ := smParseFLine pre t o m.fl hfit hfl hFS
+  have hF := parseFLine_safe t o m.fl (by omega) hFS
+  have hge := parseFLine_ge t o m.fl
+  unfold msgFLine
+  have e0 : (shMsg pre.size m).fl = shFl pre.size m.fl := rfl
+  rw [e0, q1]
+  rcases hp : parseFLine t o m.fl with ⟨o1, e1, fl1⟩
+  rw [hp] at q2 hF hge
+  simp only at q2 hF hge
+  have herr : ∀ e : Err, smResM pre.size (msgErr { shMsg pre.size m with fl := shFl pre.size fl1 } (pre.size + o1) e flags)
+      (msgErr { m with fl := fl1 } o1 e flags) := by
+    intro e
+    exact smMsgErr pre.size _ { m with fl := fl1 } o1 e flags (Or.inl hst) rfl (fun _ => rfl)
+  have hnomore : ∀ e : Err, e ≠ .moreBytes → smPostM t (msgErr { m with fl := fl1 } o1 e flags) := by
+    intro e hne
+    generalize hme : msgErr ({ m with fl := fl1 } : PSIPMsg) o1 e flags = r
+    intro hm
+    rcases r with ⟨o2, e2, m2⟩
+    simp only at hm
+    subst hm
+    exact absurd (msgErr_more_inv _ _ _ _ hme).1 hne
+  simp only [shRes]
+  cases e1 <;> simp only
+  case ok =>
+    rw [shMsg_toHeaders pre.size m fl1 hst]
+    exact smMsgHeaders pre t o1 _ flags hfit rfl
+      ⟨hls, hvOK_mono hvs hge hF.ho, hpe, hF.ho, (H.hls (Or.inr (Or.inl hst))).mono hge hF.ho, hX.monoNV hge hF.ho hidle⟩
+  case moreBytes =>
+    refine ⟨herr _, ?_⟩
+    generalize hme : msgErr ({ m with fl := fl1 } : PSIPMsg) o1 Err.moreBytes flags = r
+    intro hm
+    rcases r with ⟨o2, e2, m2⟩
+    simp only at hm
+    subst hm
+    obtain ⟨_, rfl, rfl⟩ := msgErr_more_inv _ _ _ _ hme
+    exact ⟨Or.inl hst, fun _ => ⟨q2 rfl, hidle⟩, fun _ => hX.monoNV hge hF.ho hidle⟩
+  all_goals exact ⟨herr _, hnomore _ (by decide)⟩
+
+/-! #### ParseSIPMsg -/
+
+theorem HvSh.append {t : Buf} {o : Nat} {st : HState} {hv : PHdrVals} (h : HvSh t o st hv) (s : Buf) :
+    HvSh (t ++ s) o st hv :=
+  ⟨h.from_.append s, h.to.append s, h.callid, h.cseqP, h.cseqL, h.clen, h.expires, fun hh => (h.ct hh).append s,
+   fun hh => (h.pa hh).append s⟩
+
+theorem HlSh.append {t : Buf} {i : Nat} {st : HLσ} (h : HlSh t i st) (s : Buf) : HlSh (t ++ s) i st :=
+  ⟨h.pos, h.valNz, h.nameNz, fun hv hh => (h.hv hv hh).append s⟩
+
+theorem shMsg_start (k : Nat) (m : PSIPMsg) (o : Nat) (hst : m.state = .init) :
+    ({ shMsg k m with offs := k + o, state := MsgState.fline } : PSIPMsg) = shMsg k { m with offs := o, state := .fline } := by
+  unfold shMsg; simp only [hst, shMb, shMl, shMo, Nat.add_comm]
+
+/-- **ParseSIPMsg is position independent**: for every legitimate message object (`MsgAll`: new / produced by Init, or
+    suspended by MoreBytes in the first line, in the header section or before the body), every flag combination and
+    every prefix `pre` with `pre.size + t.size ≤ 65535`, the call on `pre ++ t` at `pre.size + o` with the moved object
+    returns the offset moved by `pre.size`, the same verdict and the moved message object (`shMsg`: first line, every
+    stored header and shortcut, every header value, body, `Buf` / `RawMsg` bookkeeping moved by exactly `pre.size`;
+    status, method numbers, counts, flags, lengths and the state unchanged) — exactly, unless the call ended in the
+    error state, in which case the header values agree up to the stale (never reported) restart offset of the
+    name-addr value that was being parsed (`smRelM`). After MoreBytes the returned object is legitimate again at the
+    returned offset on every grown buffer. -/
+theorem parseSIPMsg_shift (pre t : Buf) (o : Nat) (m : PSIPMsg) (flags : Nat) (hfit : pre.size + t.size ≤ 65535)
+    (hA : MsgAll t o m) :
+    smResM pre.size (parseSIPMsg (pre ++ t) (pre.size + o) (shMsg pre.size m) flags) (parseSIPMsg t o m flags) ∧
+      ((parseSIPMsg t o m flags).2.1 = .moreBytes →
+        ∀ s : Buf, MsgAll (t ++ s) (parseSIPMsg t o m flags).1 (parseSIPMsg t o m flags).2.2) := by
+  obtain ⟨hok, H, hst4, hflNew, hflS, hsh, hidle⟩ := hA
+  have key : smResM pre.size (parseSIPMsg (pre ++ t) (pre.size + o) (shMsg pre.size m) flags) (parseSIPMsg t o m flags) ∧
+      smPostM t (parseSIPMsg t o m flags) := by
+    rcases hst4 with hst | hst | hst | hst
+    · have e1 : parseSIPMsg t o m flags = msgFLine t o { m with offs := o, state := .fline } flags := by
+        unfold parseSIPMsg; rw [hst]
+      have e2 : parseSIPMsg (pre ++ t) (pre.size + o) (shMsg pre.size m) flags =
+          msgFLine (pre ++ t) (pre.size + o) (shMsg pre.size { m with offs := o, state := .fline }) flags := by
+        unfold parseSIPMsg
+        have : (shMsg pre.size m).state = .init := hst
+        rw [this]
+        simp only
+        rw [shMsg_start pre.size m o hst]
+      rw [e1, e2]
+      exact smMsgFLine pre t o _ flags hfit rfl
+        ⟨hok.1, fun _ => hok.2.1 (Or.inl hst), fun _ => hok.2.2 (by rw [hst]; decide)⟩
+        ⟨⟨H.pnc, H.fl, H.hl, H.pv, H.body⟩, H.ho, (fun _ => Nat.le_refl _), (fun _ => H.flS (Or.inl hst)),
+          (fun _ => H.hls (Or.inl hst)), ⟨H.inn.fl, H.inn.hl, H.inn.pv⟩⟩
+        (Or.inl (hflNew hst)) (hsh (by rw [hst]; decide)) (hidle (Or.inl hst))
+    · rw [parseSIPMsg_fline t o m flags hst, parseSIPMsg_fline (pre ++ t) _ _ flags (show (shMsg pre.size m).state = .fline from hst)]
+      exact smMsgFLine pre t o m flags hfit hst hok H (hflS hst) (hsh (by rw [hst]; decide)) (hidle (Or.inr hst))
+    · rw [parseSIPMsg_headers t o m flags hst, parseSIPMsg_headers (pre ++ t) _ _ flags (show (shMsg pre.size m).state = .headers from hst)]
+      obtain ⟨hls, hvs, hpe⟩ := hok.2.2 (by rw [hst]; decide)
+      exact smMsgHeaders pre t o m flags hfit hst
+        ⟨hls, hvs, hpe, hok.1, H.hls (Or.inr (Or.inr hst)), hsh (by rw [hst]; decide)⟩
+    · rw [parseSIPMsg_body t o m flags hst, parseSIPMsg_body (pre ++ t) _ _ flags (show (shMsg pre.size m).state = .body from hst)]
+      refine ⟨smResM_of_eq (smMsgBody pre t o m flags hst hok.1 hfit), fun hm => ?_⟩
+      have := msgBody_resume t #[] o m flags flags (o' := (msgBody t o m flags).1) (m' := (msgBody t o m flags).2.2)
+        (Prod.ext rfl (Prod.ext hm rfl))
+      rw [this.2.1]
+      exact ⟨Or.inr (Or.inr hst), (fun hh => by rw [show ({ m with body := PField.set o o } : PSIPMsg).state = m.state from rfl, hst] at hh; cases hh),
+        fun hh => absurd hst hh⟩
+  refine ⟨key.1, fun hm s => ?_⟩
+  have hT := parseSIPMsg_safe t o m flags (by omega) hok H
+  obtain ⟨p1, p2, p3⟩ := key.2 hm
+  rcases hp : parseSIPMsg t o m flags with ⟨o1, e1, m1⟩
+  rw [hp] at hm hT p1 p2 p3
+  simp only at hm hT p1 p2 p3
+  subst hm
+  have hr := parseSIPMsg_resume t s o m flags flags hok (by omega) hp
+  have hne : m1.state ≠ .init := by rcases p1 with h | h | h <;> rw [h] <;> decide
+  exact ⟨hr.2.1, (hT.more rfl).grow (by rw [Array.size_append]; omega),
+    (by rcases p1 with h | h | h; exact Or.inr (Or.inl h); exact Or.inr (Or.inr (Or.inl h)); exact Or.inr (Or.inr (Or.inr h))),
+    (fun hh => absurd hh hne), (fun hh => (p2 hh).1), (fun hh => (p3 hh).append s),
+    (fun hh => by rcases hh with hh | hh; exact absurd hh hne; exact (p2 hh).2)⟩
+
+/-! ### new objects, corollaries -/
+
+theorem HlSh_new (t : Buf) (o : Nat) (ho : o ≤ t.size) (m : Nat) :
+    HlSh t o ({}, some ({ contacts := { vals := Array.replicate m {} } } : PHdrVals)) :=
+  ⟨fun hh => absurd rfl hh, (fun hh => by rcases hh with hh | hh <;> cases hh), fun hh => absurd rfl hh,
+   fun hv hh => by cases hh; exact HvSh_new t o ho .init m⟩
+
+/-- a new header with new header values (any contact capacity) is a legitimate pair at any offset -/
+theorem HlAll_new (t : Buf) (o : Nat) (ho : o ≤ t.size) (m : Nat) :
+    HlAll t o ({}, some ({ contacts := { vals := Array.replicate m {} } } : PHdrVals)) :=
+  ⟨HlSafe_new t o _ ho (fun hv hh => by cases hh; exact HvSafe_new t o ho m),
+   ⟨ho, hdrOK_new t, (msgOK_init t o ho {} 0 0 m none (some ())).2.2.2⟩,
+   HlSh_new t o ho m⟩
+
+/-- **every object produced by Init is legitimate** (any previous contents, caller arrays of any capacity or none) -/
+theorem MsgAll_init (t : Buf) (o : Nat) (ho : o ≤ t.size) (m : PSIPMsg) (len kh kc : Nat) (hdrs cts : Option Unit) :
+    MsgAll t o (m.init len (hdrs.map fun _ => Array.replicate kh {}) (cts.map fun _ => Array.replicate kc {})) := by
+  have hok := msgOK2_init t o ho m len kh kc hdrs cts
+  have hsafe := MsgSafe_init t o ho m len kh kc hdrs cts
+  have key : ∀ a c : Nat, msgOK2 t o (initObj len a c) → MsgSafe t o (initObj len a c) → MsgAll t o (initObj len a c) := by
+    intro a c h1 h2
+    have hcur : (initObj len a c).hl.cur = {} := flo_cur_new a
+    refine ⟨h1, h2, Or.inl rfl, fun _ => rfl, (fun hh => by cases hh), fun _ => ?_, fun _ => ?_⟩
+    · rw [hcur]; exact HlSh_new t o ho c
+    · rw [hcur]; unfold HState.isVal; simp
+  cases hdrs <;> cases cts
+  · exact key 10 10 hok hsafe
+  · exact key 10 kc hok hsafe
+  · exact key kh 10 hok hsafe
+  · exact key kh kc hok hsafe
+
+/-- … in the plain form whenever the call did not end in the error state -/
+theorem parseSIPMsg_shift_exact (pre t : Buf) (o : Nat) (m : PSIPMsg) (flags : Nat) (hfit : pre.size + t.size ≤ 65535)
+    (hA : MsgAll t o m) (hne : (parseSIPMsg t o m flags).2.2.state ≠ .err) :
+    parseSIPMsg (pre ++ t) (pre.size + o) (shMsg pre.size m) flags =
+      shRes pre.size (shMsg pre.size) (parseSIPMsg t o m flags) := by
+  obtain ⟨r1, r2, r3⟩ := (parseSIPMsg_shift pre t o m flags hfit hA).1
+  exact Prod.ext r1 (Prod.ext r2 (r3.2 hne))
+
+/-- **from an Init object, one call**: the object is its own translation -/
+theorem parseSIPMsg_shift_init (pre t : Buf) (o : Nat) (ho : o ≤ t.size) (m0 : PSIPMsg) (len kh kc : Nat)
+    (hdrs cts : Option Unit) (flags : Nat) (hfit : pre.size + t.size ≤ 65535) :
+    smResM pre.size
+      (parseSIPMsg (pre ++ t) (pre.size + o)
+        (m0.init len (hdrs.map fun _ => Array.replicate kh {}) (cts.map fun _ => Array.replicate kc {})) flags)
+      (parseSIPMsg t o
+        (m0.init len (hdrs.map fun _ => Array.replicate kh {}) (cts.map fun _ => Array.replicate kc {})) flags) := by
+  have := (parseSIPMsg_shift pre t o _ flags hfit (MsgAll_init t o ho m0 len kh kc hdrs cts)).1
+  rw [shMsg_init] at this
+  exact this
+
+/-- **the resumed call**: a message that ran out of bytes in `t` (parsed from an Init object) and is resumed at the
+    returned offset with the returned object once more bytes `s` have arrived -/
+theorem parseSIPMsg_shift_resume (pre t s : Buf) (o : Nat) (ho : o ≤ t.size) (m0 : PSIPMsg) (len kh kc : Nat)
+    (hdrs cts : Option Unit) (flags flags' : Nat) (hfit : pre.size + (t ++ s).size ≤ 65535) {o1 : Nat} {m1 : PSIPMsg}
+    (hr : parseSIPMsg t o (m0.init len (hdrs.map fun _ => Array.replicate kh {}) (cts.map fun _ => Array.replicate kc {}))
+      flags = (o1, Err.moreBytes, m1)) :
+    smResM pre.size (parseSIPMsg (pre ++ (t ++ s)) (pre.size + o1) (shMsg pre.size m1) flags')
+      (parseSIPMsg (t ++ s) o1 m1 flags') := by
+  have h1 := (parseSIPMsg_shift #[] t o _ flags (by rw [Array.size_append] at hfit; simp; omega)
+    (MsgAll_init t o ho m0 len kh kc hdrs cts)).2
+  rw [hr] at h1
+  exact (parseSIPMsg_shift pre (t ++ s) o1 m1 flags' hfit (h1 rfl s)).1
+
+/-- what a caller reads from the moved message: the same verdict-independent numbers and flags -/
+theorem shMsg_scalars (k : Nat) (m : PSIPMsg) :
+    (shMsg k m).state = m.state ∧ (shMsg k m).pnc = m.pnc ∧ (shMsg k m).rawLen = m.rawLen ∧
+    (shMsg k m).hl.n = m.hl.n ∧ (shMsg k m).hl.pflags = m.hl.pflags ∧ (shMsg k m).hl.hdrs.size = m.hl.hdrs.size ∧
+    (shMsg k m).body.len = m.body.len ∧ (shMsg k m).pv.clen.uiVal = m.pv.clen.uiVal ∧
+    (shMsg k m).pv.cseq.cseqNo = m.pv.cseq.cseqNo ∧ (shMsg k m).pv.contacts.n = m.pv.contacts.n := by
+  refine ⟨rfl, rfl, rfl, rfl, rfl, Array.size_map .., ?_, shCl_uiVal _ _, shCs_cseqNo _ _, rfl⟩
+  show (shMb k m.state m.body).len = _
+  unfold shMb; split <;> rfl
+
+/-- `GetHdr(t)` of the moved header list is the moved `GetHdr(t)` -/
+theorem shHls_getHdr (k : Nat) (hl : HdrLst) (ty : Nat) : (shHls k hl).getHdr ty = (hl.getHdr ty).map (shHdr k) := by
+  unfold HdrLst.getHdr
+  split
+  · show (hl.h.map (shHdr k))[ty - 1]? = _
+    rw [Array.getElem?_map]
+  · rfl
+
+theorem MsgAll.hls {t : Buf} {o : Nat} {m : PSIPMsg} (h : MsgAll t o m) (hst : m.state ≠ .body) :
+    HlsAll t o m.hl (some m.pv) :=
+  ⟨(h.ok2.2.2 hst).1, (h.ok2.2.2 hst).2.1, (h.ok2.2.2 hst).2.2, h.ok2.1,
+   h.safe.hls (by rcases h.st with g | g | g | g
+                  · exact Or.inl g
+                  · exact Or.inr (Or.inl g)
+                  · exact Or.inr (Or.inr g)
+                  · exact absurd g hst), h.sh hst⟩
+
+/-- **a successfully parsed message**: the moved call returns exactly the moved message -/
+theorem parseSIPMsg_shift_ok (pre t : Buf) (o : Nat) (m : PSIPMsg) (flags : Nat) (hfit : pre.size + t.size ≤ 65535)
+    (hA : MsgAll t o m) {o' : Nat} {m' : PSIPMsg} (hr : parseSIPMsg t o m flags = (o', .ok, m')) :
+    parseSIPMsg (pre ++ t) (pre.size + o) (shMsg pre.size m) flags = (pre.size + o', .ok, shMsg pre.size m') := by
+  obtain ⟨_, _, _, _, hL⟩ := parseSIPMsg_layout t o m flags (by omega) hA.ok2 hA.safe hr
+  have := parseSIPMsg_shift_exact pre t o m flags hfit hA (by rw [hr]; show m'.state ≠ .err; rw [hL.state]; decide)
+  rw [this, hr]; rfl
+
+/-! ### non-vacuity (tests, `decide +kernel` on concrete inputs; the general claims are the theorems above) -/
+
+/-- test message -/
+def smExMsg : Buf :=
+  "OPTIONS sip:a@b SIP/2.0\r\nFrom: <sip:x@y>\r\nCSeq: 7 OPTIONS\r\nContact: <sip:c@d>, <sip:e@f>\r\nContent-Length: 2\r\n\r\nhi".toUTF8.data
+
+def smExInit : PSIPMsg := ({} : PSIPMsg).init 0 none none
+
+-- the hypotheses are satisfiable: Init objects, new headers and values
+example : MsgAll smExMsg 0 smExInit := MsgAll_init smExMsg 0 (Nat.zero_le _) {} 0 0 0 none none
+example : HlsAll smExMsg 0 smExInit.hl (some smExInit.pv) :=
+  (MsgAll_init smExMsg 0 (Nat.zero_le _) {} 0 0 0 none none).hls (by decide)
+example : HlAll smExMsg 25 ({}, some ({ contacts := { vals := Array.replicate 10 {} } } : PHdrVals)) :=
+  HlAll_new smExMsg 25 (by decide +kernel) 10
+
+/-- field-wise comparison of the main components of two message objects (tests only; the structures have no
+    `DecidableEq` instance) -/
+def smMsgEq (a b : PSIPMsg) : Prop :=
+  a.fl = b.fl ∧ a.hl.hdrs = b.hl.hdrs ∧ a.hl.h = b.hl.h ∧ a.pv.from_ = b.pv.from_ ∧ a.pv.cseq = b.pv.cseq ∧
+    slCtEq a.pv.contacts b.pv.contacts ∧ a.body = b.body ∧ a.bufLen = b.bufLen ∧ a.rawOffs = b.rawOffs ∧ a.offs = b.offs
+
+instance (a b : PSIPMsg) : Decidable (smMsgEq a b) := by unfold smMsgEq; infer_instance
+
+-- the whole message after 3 junk bytes: OK, offset + 3, first line / headers / values / body / bookkeeping moved by 3
+example :
+    (parseSIPMsg smExMsg 0 smExInit 0).2.1 = Err.ok ∧
+    (parseSIPMsg ("xyz".toUTF8.data ++ smExMsg) 3 smExInit 0).1 = 3 + (parseSIPMsg smExMsg 0 smExInit 0).1 ∧
+    smMsgEq (parseSIPMsg ("xyz".toUTF8.data ++ smExMsg) 3 smExInit 0).2.2 (shMsg 3 (parseSIPMsg smExMsg 0 smExInit 0).2.2) := by
+  decide +kernel
+
+-- an error in a header value (From): same verdict; the stale restart offset is the only difference
+example :
+    (parseSIPMsg "OPTIONS sip:a@b SIP/2.0\r\nFrom: a <b<\r\n\r\n".toUTF8.data 0 smExInit 0).2.1 = Err.badChar ∧
+    (parseSIPMsg ("xyz".toUTF8.data ++ "OPTIONS sip:a@b SIP/2.0\r\nFrom: a <b<\r\n\r\n".toUTF8.data) 3 smExInit 0).2.1 = Err.badChar ∧
+    (parseSIPMsg ("xyz".toUTF8.data ++ "OPTIONS sip:a@b SIP/2.0\r\nFrom: a <b<\r\n\r\n".toUTF8.data) 3 smExInit 0).2.2.pv.from_ ≠
+      (shMsg 3 (parseSIPMsg "OPTIONS sip:a@b SIP/2.0\r\nFrom: a <b<\r\n\r\n".toUTF8.data 0 smExInit 0).2.2).pv.from_ ∧
+    (parseSIPMsg ("xyz".toUTF8.data ++ "OPTIONS sip:a@b SIP/2.0\r\nFrom: a <b<\r\n\r\n".toUTF8.data) 3 smExInit 0).2.2.pv.from_.obs =
+      (shMsg 3 (parseSIPMsg "OPTIONS sip:a@b SIP/2.0\r\nFrom: a <b<\r\n\r\n".toUTF8.data 0 smExInit 0).2.2).pv.from_.obs := by
+  decide +kernel
+
+-- ParseHdrLine at offset 0 of the text (the position where "zero = not set" conventions could misfire)
+example :
+    (parseHdrLine "From: <sip:x@y>\r\nX".toUTF8.data 0 {} (some { contacts := { vals := Array.replicate 2 {} } })).2.1 = Err.ok ∧
+    (parseHdrLine "From: <sip:x@y>\r\nX".toUTF8.data 0 {} (some { contacts := { vals := Array.replicate 2 {} } })).2.2.1.name = ⟨0, 4⟩ ∧
+    (parseHdrLine ("xyz".toUTF8.data ++ "From: <sip:x@y>\r\nX".toUTF8.data) 3 {} (some { contacts := { vals := Array.replicate 2 {} } })).2.2.1 =
+      shHdr 3 (parseHdrLine "From: <sip:x@y>\r\nX".toUTF8.data 0 {} (some { contacts := { vals := Array.replicate 2 {} } })).2.2.1 := by
+  decide +kernel
+
+-- a message cut inside the Contact list and resumed on the full buffer with the moved suspended object
+def smExMsg3 : Buf := "OPTIONS sip:a@b SIP/2.0\r\nContact: <sip:c@d>, <sip:e@f>\r\n\r\n".toUTF8.data
+def smExSusp : Nat × Err × PSIPMsg := parseSIPMsg (smExMsg3.extract 0 48) 0 smExInit 0
+example :
+    smExSusp.2.1 = Err.moreBytes ∧ smExSusp.2.2.state = .headers ∧ smExSusp.2.2.pv.contacts.n = 1 ∧
+    (parseSIPMsg smExMsg3 smExSusp.1 smExSusp.2.2 0).2.1 = Err.ok ∧
+    (parseSIPMsg ("xyz".toUTF8.data ++ smExMsg3) (3 + smExSusp.1) (shMsg 3 smExSusp.2.2) 0).1 =
+      3 + (parseSIPMsg smExMsg3 smExSusp.1 smExSusp.2.2 0).1 ∧
+    slCtEq (parseSIPMsg ("xyz".toUTF8.data ++ smExMsg3) (3 + smExSusp.1) (shMsg 3 smExSusp.2.2) 0).2.2.pv.contacts
+      (shMsg 3 (parseSIPMsg smExMsg3 smExSusp.1 smExSusp.2.2 0).2.2).pv.contacts := by
+  decide +kernel
+
 end Sipsp
+
+open Sipsp in
+/-- **pipelined messages (property C06)**: when the first message fills `b1` exactly (ParseSIPMsg on `b1` from an
+    Init object says OK at offset `o1 = b1.size`), parsing the buffer `b1 ++ b2` at offset `o1` from an Init object
+    gives the result of parsing `b2` alone at offset 0 moved by `b1.size` (`smResM`): the same verdict, the returned
+    offset + `b1.size`, and every field of the message object (first line, headers, values, body, `Buf` / `RawMsg`
+    bookkeeping) moved by exactly `b1.size` — numbers, counts and flags unchanged. (`len` is what Init records as
+    `len(msg.Buf)`; the parser never reads it.) -/
+theorem pipeline_second_message (b1 b2 : Buf) (flags : Nat) (m0 : PSIPMsg) (len kh kc : Nat) (hdrs cts : Option Unit)
+    (hfit : b1.size + b2.size ≤ 65535) {o1 : Nat} {m1 : PSIPMsg}
+    (_h1 : parseSIPMsg b1 0 (m0.init len (hdrs.map fun _ => Array.replicate kh {}) (cts.map fun _ => Array.replicate kc {}))
+      flags = (o1, Err.ok, m1))
+    (ho1 : o1 = b1.size) :
+    smResM o1
+      (parseSIPMsg (b1 ++ b2) o1
+        (m0.init len (hdrs.map fun _ => Array.replicate kh {}) (cts.map fun _ => Array.replicate kc {})) flags)
+      (parseSIPMsg b2 0
+        (m0.init len (hdrs.map fun _ => Array.replicate kh {}) (cts.map fun _ => Array.replicate kc {})) flags) := by
+  subst ho1
+  exact parseSIPMsg_shift_init b1 b2 0 (Nat.zero_le _) m0 len kh kc hdrs cts flags hfit
+
+open Sipsp in
+/-- … and when the second message parses successfully on its own, the pipelined call returns exactly the moved
+    message: OK at `b1.size + o2` with `shMsg b1.size m2` -/
+theorem pipeline_second_message_ok (b1 b2 : Buf) (flags : Nat) (m0 : PSIPMsg) (len kh kc : Nat) (hdrs cts : Option Unit)
+    (hfit : b1.size + b2.size ≤ 65535) {o2 : Nat} {m2 : PSIPMsg}
+    (h2 : parseSIPMsg b2 0 (m0.init len (hdrs.map fun _ => Array.replicate kh {}) (cts.map fun _ => Array.replicate kc {}))
+      flags = (o2, Err.ok, m2)) :
+    parseSIPMsg (b1 ++ b2) b1.size
+        (m0.init len (hdrs.map fun _ => Array.replicate kh {}) (cts.map fun _ => Array.replicate kc {})) flags =
+      (b1.size + o2, Err.ok, shMsg b1.size m2) := by
+  have := parseSIPMsg_shift_ok b1 b2 0 _ flags hfit (MsgAll_init b2 0 (Nat.zero_le _) m0 len kh kc hdrs cts) h2
+  rw [shMsg_init] at this
+  exact this
